@@ -1,7 +1,7 @@
 (* C09 - format produces one canonical layout and is idempotent; --check agrees.
    Statements only; proofs in Proofs/FormatProofs.v. *)
 From Coq Require Import String.
-From Verif Require Import Base.Str Base.Lines Base.Outcome Model.Patterns Model.ParseLine Model.Format Proofs.FormatProofs Proofs.FormatIdemProofs Proofs.FormatDefLineProofs Proofs.FormatIncLineProofs.
+From Verif Require Import Base.Str Base.Lines Base.Outcome Model.Patterns Model.ParseLine Model.Format Proofs.FormatProofs Proofs.FormatIdemProofs Proofs.FormatDefLineProofs Proofs.FormatIncLineProofs Proofs.FormatExcLineProofs.
 From Verif Require Import Gen.Consts.
 From Verif Require Model.RuleId Model.Update Model.Renumber Model.Cli Proofs.CliProofs Proofs.CliCheckProofs.
 From Verif Require Tie.Pin_standard_header Tie.Pin_lits_cmd_regex_format_processLine
@@ -118,3 +118,34 @@ Theorem C09_check_agrees_with_format : forall fmt files t, NoDup files ->
   (Cli.format_check_all fmt files t = Cli.Success <-> Cli.format_all fmt files t = (t, Cli.Success)).
 Proof. exact CliCheckProofs.format_check_agrees_with_format. Qed.
 Print Assumptions C09_check_agrees_with_format.
+
+(* and include-except directives (the lazy exclude-list group: the shortest prefix whose remainder
+   satisfies the optional pair tail stays the shortest when the remainder is re-printed).
+   LINE-LEVEL IDEMPOTENCE, IN FULL: for EVERY line as the formatter's parser delivers it, every
+   starting indent, error lines included - no directive is excepted any more *)
+Theorem C09_line_idempotent : forall line indent out next,
+  trim_left is_blank line = line ->
+  process_line line indent = (Some out, next) ->
+  process_line (trim_left is_blank out) indent = (Some out, next).
+Proof. exact process_line_idempotent. Qed.
+Print Assumptions C09_line_idempotent.
+
+Theorem C09_lines_idempotent : forall ls indent,
+  Forall (fun l => trim_left is_blank l = l) ls ->
+  process_lines (map (trim_left is_blank) (process_lines ls indent)) indent = process_lines ls indent.
+Proof. intros ls indent. now apply process_lines_idempotent. Qed.
+Print Assumptions C09_lines_idempotent.
+
+(* for the lines of ANY file: the formatter's parser left-trims every line before processLine sees it *)
+Theorem C09_layout_of_any_lines_is_a_fixed_point : forall ls indent,
+  let ts := map (trim_left is_blank) ls in
+  process_lines (map (trim_left is_blank) (process_lines ts indent)) indent = process_lines ts indent.
+Proof. exact process_lines_idempotent_any. Qed.
+Print Assumptions C09_layout_of_any_lines_is_a_fixed_point.
+
+Theorem C09_include_except_line_example :
+  process_line $"##!>  include-except   words.ra   ex-1   ex-2.ra  --  @  x  " 1
+    = (Some $"  ##!> include-except words.ra ex-1   ex-2.ra -- @  x", 1%nat) /\
+  m_include_except $"##!>  include-except   words.ra   ex-1   ex-2.ra  --  @  x  " = Some ($"words.ra", $"ex-1   ex-2.ra", $"@  x") /\
+  m_include_except $"##!> include-except words.ra ex-1   ex-2.ra -- @  x" = Some ($"words.ra", $"ex-1   ex-2.ra", $"@  x").
+Proof. exact include_except_line_example. Qed.
